@@ -81,3 +81,46 @@ Lemma snapshot_refuted :
   snd (get_sf_snapshot Z tag_is_zero tag (fst (get_sf_snapshot Z tag_is_zero tag (empty Z 0) (26, 0))) (26, 3))
   <> tag 26 3.
 Proof. vm_compute. discriminate. Qed.
+
+(* ---- several reflections on one calculator object ----
+   The value function depends on the reflection and on the addends in force (a "world" w); every calculate_* entry point
+   starts with set_stol2_and_scattering_factors, which installs the new world and empties the cache. *)
+Section Worlds.
+Variable V W : Type.
+Variable vzero : V.
+Variable is_zero : V -> bool.
+Variable wval : W -> Z -> Z -> V.
+
+Inductive cop := Reset (w : W) | Get (el ch : Z).
+
+Definition cstep (st : W * cache V) (o : cop) : (W * cache V) * option V :=
+  match o with
+  | Reset w => ((w, empty V vzero), None)
+  | Get el ch => let '(c', v) := get_sf V is_zero (wval (fst st)) (snd st) (el, ch) in ((fst st, c'), Some v)
+  end.
+
+Fixpoint crun (st : W * cache V) (ops : list cop) : list (option V) :=
+  match ops with
+  | [] => []
+  | o :: t => let '(st', r) := cstep st o in r :: crun st' t
+  end.
+
+(* what every call should return: the value in the world installed by the latest Reset *)
+Fixpoint cspec (w : W) (ops : list cop) : list (option V) :=
+  match ops with
+  | [] => []
+  | Reset w' :: t => None :: cspec w' t
+  | Get el ch :: t => Some (wval w el ch) :: cspec w t
+  end.
+
+Theorem crun_correct : is_zero vzero = true -> forall ops w c,
+  cache_ok V is_zero (wval w) c -> crun (w, c) ops = cspec w ops.
+Proof.
+  intros Hz. induction ops as [|o t IH]; intros w c OK; [reflexivity|].
+  destruct o as [w'|el ch]; cbn [crun cstep cspec].
+  - f_equal. apply IH. apply empty_ok. exact Hz.
+  - destruct (get_sf_correct V is_zero (wval w) c el ch OK) as [H1 H2].
+    cbn [fst snd]. destruct (get_sf V is_zero (wval w) c (el, ch)) as [c' v] eqn:E. cbn [fst snd] in *. subst v.
+    f_equal. apply IH. exact H2.
+Qed.
+End Worlds.
